@@ -1011,6 +1011,11 @@ namespace awkward {
       return std::pair<Index64, ContentPtr>(raw->offsets(), content);
     }
     else {
+      if (offsets_.length() != 0  &&  offsets_.getitem_at_nowrap(0) != 0) {
+        // offsets_ are used below as positions in the content's inner offsets
+        return toListOffsetArray64(true).get()->offsets_and_flattened(posaxis,
+                                                                      depth);
+      }
       std::pair<Index64, ContentPtr> pair =
         content_.get()->offsets_and_flattened(posaxis, depth + 1);
       Index64 inneroffsets = pair.first;
